@@ -10,6 +10,7 @@ import (
 	"fmt"
 	"io"
 	"net/http"
+	"net/url"
 	"strings"
 	"testing"
 
@@ -55,7 +56,13 @@ type Case struct {
 	// Strict: the underlying writer refuses status codes outside 100..999 by
 	// panicking (net/http does); only then are such codes generated.
 	Strict bool `json:"strict_underlying,omitempty"`
-	Ops    []Op `json:"ops"`
+	// ViaFlame: the writer under test is the one a handler gets from its request
+	// context (the underlying writer is what ServeHTTP was given); before that
+	// request, another one on the same application registered PriorHooks
+	// functions on its own response and wrote nothing.
+	ViaFlame   bool `json:"writer_of_a_request_context,omitempty"`
+	PriorHooks int  `json:"functions_registered_by_an_earlier_request,omitempty"`
+	Ops        []Op `json:"ops"`
 }
 
 // spy is the underlying writer.
@@ -133,238 +140,271 @@ func checkCase(c Case) (out evid.Outcome) {
 	if c.Stacked {
 		under = flamego.NewResponseWriter(http.MethodGet, under)
 	}
-	w := flamego.NewResponseWriter(c.Method, under)
+	var hookRuns []int // actual runs, in order
+	body := func(w flamego.ResponseWriter) (out evid.Outcome) {
+		// model
+		mStatus, mSize := 0, 0
+		var mHooks []int    // registered before the trigger
+		var wantRuns []int  // expected runs
+		hooksAtTrigger := 0 // how many hooks had been registered when the status was sent
+		triggered := false
+		nHooks := 0
+		second := false
+		headWrite := false
+		shortSeen := false
+		refused := false
 
-	// model
-	mStatus, mSize := 0, 0
-	var mHooks []int    // registered before the trigger
-	var hookRuns []int  // actual runs, in order
-	var wantRuns []int  // expected runs
-	hooksAtTrigger := 0 // how many hooks had been registered when the status was sent
-	triggered := false
-	nHooks := 0
-	second := false
-	headWrite := false
-	shortSeen := false
-	refused := false
-
-	trigger := func(code int) {
-		if mStatus != 0 {
-			return
-		}
-		triggered = true
-		hooksAtTrigger = len(mHooks)
-		for i := len(mHooks) - 1; i >= 0; i-- {
-			wantRuns = append(wantRuns, mHooks[i])
-		}
-		mStatus = code
-	}
-
-	for step, op := range c.Ops {
-		desc := fmt.Sprintf("step %d %+v of %s", step, op, js(c))
-		switch op.K {
-		case "wh":
+		trigger := func(code int) {
 			if mStatus != 0 {
-				second = true
+				return
 			}
-			if op.V < 100 || op.V > 999 {
-				// a code the underlying writer refuses: what the wrapper makes of it
-				// is open - the panic may come through (nothing is sent then; hooks
-				// registered so far may have run on the way), or another status may be
-				// sent in its place. The model takes over what happened in this step -
-				// which hooks ran, which status line was accepted - and holds
-				// everything against it from here on: Status() is the status sent,
-				// hooks that ran do not run again, the others still do.
-				if !c.Strict {
-					panic("harness: out-of-range code without a strict underlying writer")
-				}
-				refused = true
-				linesBefore, runsBefore := len(s.log), len(hookRuns)
-				func() {
-					defer func() { _ = recover() }()
-					w.WriteHeader(op.V)
-				}()
+			triggered = true
+			hooksAtTrigger = len(mHooks)
+			for i := len(mHooks) - 1; i >= 0; i-- {
+				wantRuns = append(wantRuns, mHooks[i])
+			}
+			mStatus = code
+		}
+
+		for step, op := range c.Ops {
+			desc := fmt.Sprintf("step %d %+v of %s", step, op, js(c))
+			switch op.K {
+			case "wh":
 				if mStatus != 0 {
-					break // the response was committed already: the call is dropped
+					second = true
 				}
-				for _, id := range hookRuns[runsBefore:] {
-					at := -1
-					for i, h := range mHooks {
-						if h == id {
-							at = i
+				if op.V < 100 || op.V > 999 {
+					// a code the underlying writer refuses: what the wrapper makes of it
+					// is open - the panic may come through (nothing is sent then; hooks
+					// registered so far may have run on the way), or another status may be
+					// sent in its place. The model takes over what happened in this step -
+					// which hooks ran, which status line was accepted - and holds
+					// everything against it from here on: Status() is the status sent,
+					// hooks that ran do not run again, the others still do.
+					if !c.Strict {
+						panic("harness: out-of-range code without a strict underlying writer")
+					}
+					refused = true
+					linesBefore, runsBefore := len(s.log), len(hookRuns)
+					func() {
+						defer func() { _ = recover() }()
+						w.WriteHeader(op.V)
+					}()
+					if mStatus != 0 {
+						break // the response was committed already: the call is dropped
+					}
+					for _, id := range hookRuns[runsBefore:] {
+						at := -1
+						for i, h := range mHooks {
+							if h == id {
+								at = i
+							}
+						}
+						if at < 0 {
+							return fail(out, "hooks", "%s: during the refused WriteHeader(%d) hook %d ran, which is not among the pending ones %v (-1000-id marks a hook that observed a status)", desc, op.V, id, mHooks)
+						}
+						mHooks = append(mHooks[:at:at], mHooks[at+1:]...)
+						wantRuns = append(wantRuns, id)
+					}
+					if len(s.log) > linesBefore && strings.HasPrefix(s.log[linesBefore], "WH ") {
+						var code int
+						fmt.Sscanf(s.log[linesBefore], "WH %d", &code)
+						trigger(code)
+					}
+					break
+				}
+				trigger(op.V)
+				w.WriteHeader(op.V)
+			case "w", "ws", "cp":
+				wasWritten, triggeredBefore, wantRunsBefore := mStatus != 0, triggered, append([]int(nil), wantRuns...)
+				_, _, _ = wasWritten, triggeredBefore, wantRunsBefore
+				if mStatus == 0 {
+					second = true // implicit 200
+				}
+				trigger(200)
+				wantN, wantErr := 0, false
+				if c.Method != http.MethodHead {
+					wantN = op.V
+					if op.Short > 0 {
+						shortSeen = true
+						wantN = op.V - op.Short
+						if wantN < 0 {
+							wantN = 0
+						}
+						wantErr = true
+						s.short = op.Short
+					}
+					mSize += wantN
+				} else if op.V > 0 {
+					headWrite = true
+				}
+				var n int
+				var err error
+				if op.K == "cp" {
+					// a body streamed with io.Copy from a source without WriterTo
+					var n64 int64
+					n64, err = io.Copy(w, plainReader{strings.NewReader(strings.Repeat("c", op.V))})
+					n = int(n64)
+					if c.Method == http.MethodHead && err == nil {
+						n = op.V // io.Copy reports what it handed over
+					}
+					if op.V == 0 {
+						// nothing to copy: io.Copy never calls the writer, so nothing is triggered
+						if !wasWritten {
+							mStatus, triggered, wantRuns = 0, triggeredBefore, wantRunsBefore
 						}
 					}
-					if at < 0 {
-						return fail(out, "hooks", "%s: during the refused WriteHeader(%d) hook %d ran, which is not among the pending ones %v (-1000-id marks a hook that observed a status)", desc, op.V, id, mHooks)
+				} else if op.K == "ws" {
+					// strings travel through io.WriteString, which uses a WriteString
+					// method when the writer has one
+					n, err = io.WriteString(w, strings.Repeat("s", op.V))
+				} else {
+					n, err = w.Write(make([]byte, op.V))
+				}
+				s.short = 0
+				if c.Method == http.MethodHead {
+					// nothing is forwarded; the statement leaves the reported count open
+					// (all bytes "consumed", or none), but it is not an error
+					if op.K == "cp" && n == 0 && err == io.ErrShortWrite {
+						// a Write that reports 0 bytes for HEAD makes io.Copy itself say so
+						err = nil
 					}
-					mHooks = append(mHooks[:at:at], mHooks[at+1:]...)
-					wantRuns = append(wantRuns, id)
-				}
-				if len(s.log) > linesBefore && strings.HasPrefix(s.log[linesBefore], "WH ") {
-					var code int
-					fmt.Sscanf(s.log[linesBefore], "WH %d", &code)
-					trigger(code)
-				}
-				break
-			}
-			trigger(op.V)
-			w.WriteHeader(op.V)
-		case "w", "ws", "cp":
-			wasWritten, triggeredBefore, wantRunsBefore := mStatus != 0, triggered, append([]int(nil), wantRuns...)
-			_, _, _ = wasWritten, triggeredBefore, wantRunsBefore
-			if mStatus == 0 {
-				second = true // implicit 200
-			}
-			trigger(200)
-			wantN, wantErr := 0, false
-			if c.Method != http.MethodHead {
-				wantN = op.V
-				if op.Short > 0 {
-					shortSeen = true
-					wantN = op.V - op.Short
-					if wantN < 0 {
-						wantN = 0
+					if err != nil || (n != op.V && n != 0) {
+						return fail(out, "write-result", "%s: Write on a HEAD request returned (%d, %v)", desc, n, err)
 					}
-					wantErr = true
-					s.short = op.Short
+				} else if n != wantN || (err != nil) != wantErr {
+					return fail(out, "write-result", "%s: Write returned (%d, %v), the underlying writer took %d bytes (error=%v)", desc, n, err, wantN, wantErr)
 				}
-				mSize += wantN
-			} else if op.V > 0 {
-				headWrite = true
+			case "f":
+				if mStatus == 0 {
+					second = true
+				}
+				trigger(200)
+				w.Flush()
+			case "before":
+				id := op.V
+				nHooks++
+				late := mStatus != 0
+				if !late {
+					mHooks = append(mHooks, id)
+				}
+				w.Before(func(rw flamego.ResponseWriter) {
+					if late {
+						// registered after the status went out: the statement speaks about
+						// functions registered before the first write; whether this one is
+						// ever called is left open (like a function registered by a hook)
+						return
+					}
+					hookRuns = append(hookRuns, id)
+					rw.Header().Add("X-Hooks", fmt.Sprint(id))
+					if rw.Status() != 0 || rw.Written() {
+						hookRuns = append(hookRuns, -1000-id) // marks "saw a status"
+					}
+					if op.Nest {
+						rw.Before(func(flamego.ResponseWriter) {})
+					}
+				})
 			}
-			var n int
-			var err error
-			if op.K == "cp" {
-				// a body streamed with io.Copy from a source without WriterTo
-				var n64 int64
-				n64, err = io.Copy(w, plainReader{strings.NewReader(strings.Repeat("c", op.V))})
-				n = int(n64)
-				if c.Method == http.MethodHead && err == nil {
-					n = op.V // io.Copy reports what it handed over
-				}
-				if op.V == 0 {
-					// nothing to copy: io.Copy never calls the writer, so nothing is triggered
-					if !wasWritten {
-						mStatus, triggered, wantRuns = 0, triggeredBefore, wantRunsBefore
+			// truthfulness after every step
+			if w.Status() != mStatus {
+				return fail(out, "status", "%s: Status() = %d, want %d", desc, w.Status(), mStatus)
+			}
+			if w.Written() != (mStatus != 0) {
+				return fail(out, "written", "%s: Written() = %v with status %d", desc, w.Written(), mStatus)
+			}
+			if w.Size() != mSize {
+				return fail(out, "size", "%s: Size() = %d, the underlying writer accepted %d body bytes", desc, w.Size(), mSize)
+			}
+			if s.body != mSize {
+				return fail(out, "forwarded", "%s: the underlying writer received %d body bytes, want %d (method %s)", desc, s.body, mSize, c.Method)
+			}
+			// log invariants
+			wh := 0
+			for i, l := range s.log {
+				if strings.HasPrefix(l, "WH") {
+					wh++
+					if i != 0 {
+						return fail(out, "status-not-first", "%s: the underlying writer saw %q before the status line: %v", desc, s.log[0], s.log)
 					}
 				}
-			} else if op.K == "ws" {
-				// strings travel through io.WriteString, which uses a WriteString
-				// method when the writer has one
-				n, err = io.WriteString(w, strings.Repeat("s", op.V))
-			} else {
-				n, err = w.Write(make([]byte, op.V))
 			}
-			s.short = 0
-			if c.Method == http.MethodHead {
-				// nothing is forwarded; the statement leaves the reported count open
-				// (all bytes "consumed", or none), but it is not an error
-				if op.K == "cp" && n == 0 && err == io.ErrShortWrite {
-					// a Write that reports 0 bytes for HEAD makes io.Copy itself say so
-					err = nil
-				}
-				if err != nil || (n != op.V && n != 0) {
-					return fail(out, "write-result", "%s: Write on a HEAD request returned (%d, %v)", desc, n, err)
-				}
-			} else if n != wantN || (err != nil) != wantErr {
-				return fail(out, "write-result", "%s: Write returned (%d, %v), the underlying writer took %d bytes (error=%v)", desc, n, err, wantN, wantErr)
+			if wh > 1 {
+				return fail(out, "two-status-lines", "%s: the underlying writer received %d status lines: %v", desc, wh, s.log)
 			}
-		case "f":
-			if mStatus == 0 {
-				second = true
+			if (wh == 1) != (mStatus != 0) {
+				return fail(out, "status-line", "%s: status lines forwarded = %d, model status %d: %v", desc, wh, mStatus, s.log)
 			}
-			trigger(200)
-			w.Flush()
-		case "before":
-			id := op.V
-			nHooks++
-			late := mStatus != 0
-			if !late {
-				mHooks = append(mHooks, id)
-			}
-			w.Before(func(rw flamego.ResponseWriter) {
-				if late {
-					// registered after the status went out: the statement speaks about
-					// functions registered before the first write; whether this one is
-					// ever called is left open (like a function registered by a hook)
-					return
-				}
-				hookRuns = append(hookRuns, id)
-				rw.Header().Add("X-Hooks", fmt.Sprint(id))
-				if rw.Status() != 0 || rw.Written() {
-					hookRuns = append(hookRuns, -1000-id) // marks "saw a status"
-				}
-				if op.Nest {
-					rw.Before(func(flamego.ResponseWriter) {})
-				}
-			})
-		}
-		// truthfulness after every step
-		if w.Status() != mStatus {
-			return fail(out, "status", "%s: Status() = %d, want %d", desc, w.Status(), mStatus)
-		}
-		if w.Written() != (mStatus != 0) {
-			return fail(out, "written", "%s: Written() = %v with status %d", desc, w.Written(), mStatus)
-		}
-		if w.Size() != mSize {
-			return fail(out, "size", "%s: Size() = %d, the underlying writer accepted %d body bytes", desc, w.Size(), mSize)
-		}
-		if s.body != mSize {
-			return fail(out, "forwarded", "%s: the underlying writer received %d body bytes, want %d (method %s)", desc, s.body, mSize, c.Method)
-		}
-		// log invariants
-		wh := 0
-		for i, l := range s.log {
-			if strings.HasPrefix(l, "WH") {
-				wh++
-				if i != 0 {
-					return fail(out, "status-not-first", "%s: the underlying writer saw %q before the status line: %v", desc, s.log[0], s.log)
+			if wh == 1 {
+				want := fmt.Sprintf("WH %d hdr=%s", mStatus, joinInts(wantRuns))
+				if s.log[0] != want {
+					return fail(out, "status-line-content", "%s: the underlying writer got %q, want %q (code, and the headers set by the hooks must already be there)", desc, s.log[0], want)
 				}
 			}
-		}
-		if wh > 1 {
-			return fail(out, "two-status-lines", "%s: the underlying writer received %d status lines: %v", desc, wh, s.log)
-		}
-		if (wh == 1) != (mStatus != 0) {
-			return fail(out, "status-line", "%s: status lines forwarded = %d, model status %d: %v", desc, wh, mStatus, s.log)
-		}
-		if wh == 1 {
-			want := fmt.Sprintf("WH %d hdr=%s", mStatus, joinInts(wantRuns))
-			if s.log[0] != want {
-				return fail(out, "status-line-content", "%s: the underlying writer got %q, want %q (code, and the headers set by the hooks must already be there)", desc, s.log[0], want)
+			if fmt.Sprint(hookRuns) != fmt.Sprint(wantRuns) {
+				return fail(out, "hooks", "%s: hooks ran %v, want %v (registered before the first write, reverse order, once; -1000-id marks a hook that observed a status)", desc, hookRuns, wantRuns)
 			}
 		}
-		if fmt.Sprint(hookRuns) != fmt.Sprint(wantRuns) {
-			return fail(out, "hooks", "%s: hooks ran %v, want %v (registered before the first write, reverse order, once; -1000-id marks a hook that observed a status)", desc, hookRuns, wantRuns)
+		if triggered && hooksAtTrigger >= 2 {
+			out.NonTrivial = true
+			out.Classes = append(out.Classes, "hooks>=2-with-trigger")
 		}
+		if second {
+			out.NonTrivial = true
+			out.Classes = append(out.Classes, "second-trigger-or-implicit-200")
+		}
+		if headWrite {
+			out.NonTrivial = true
+			out.Classes = append(out.Classes, "head-body-write")
+		}
+		if shortSeen {
+			out.NonTrivial = true
+			out.Classes = append(out.Classes, "short-write")
+		}
+		if c.Stacked {
+			out.NonTrivial = true
+			out.Classes = append(out.Classes, "stacked-wrappers")
+		}
+		if refused {
+			out.NonTrivial = true
+			out.Classes = append(out.Classes, "status-code-refused-by-underlying-writer")
+		}
+		if nHooks > hooksAtTrigger && triggered {
+			out.Classes = append(out.Classes, "late-hook")
+		}
+		return out
 	}
-	if triggered && hooksAtTrigger >= 2 {
-		out.NonTrivial = true
-		out.Classes = append(out.Classes, "hooks>=2-with-trigger")
+	if !c.ViaFlame {
+		return body(flamego.NewResponseWriter(c.Method, under))
 	}
-	if second {
-		out.NonTrivial = true
-		out.Classes = append(out.Classes, "second-trigger-or-implicit-200")
+	// the writer a handler gets from its request context, after an earlier
+	// request on the same application registered functions on *its* response and
+	// never wrote: nothing of that may show on this one
+	f := flamego.NewWithLogger(io.Discard)
+	prior, ran := true, false
+	h := func(ctx flamego.Context) {
+		if prior {
+			for k := 0; k < c.PriorHooks; k++ {
+				k := k
+				ctx.ResponseWriter().Before(func(flamego.ResponseWriter) { hookRuns = append(hookRuns, 9000+k) })
+			}
+			return
+		}
+		ran = true
+		out = body(ctx.ResponseWriter())
 	}
-	if headWrite {
-		out.NonTrivial = true
-		out.Classes = append(out.Classes, "head-body-write")
+	f.Any("/", h)
+	f.NotFound(h)
+	mkReq := func() *http.Request {
+		return &http.Request{Method: c.Method, URL: &url.URL{Path: "/"}, Header: http.Header{}, Proto: "HTTP/1.1", ProtoMajor: 1, ProtoMinor: 1}
 	}
-	if shortSeen {
-		out.NonTrivial = true
-		out.Classes = append(out.Classes, "short-write")
+	f.ServeHTTP(&spy{h: http.Header{}}, mkReq())
+	prior = false
+	f.ServeHTTP(under, mkReq())
+	if !ran {
+		panic("harness: the handler did not run")
 	}
-	if c.Stacked {
-		out.NonTrivial = true
-		out.Classes = append(out.Classes, "stacked-wrappers")
-	}
-	if refused {
-		out.NonTrivial = true
-		out.Classes = append(out.Classes, "status-code-refused-by-underlying-writer")
-	}
-	if nHooks > hooksAtTrigger && triggered {
-		out.Classes = append(out.Classes, "late-hook")
-	}
+	out.NonTrivial = true
+	out.Classes = append(out.Classes, "writer-of-a-request-context")
 	return out
 }
 
@@ -394,6 +434,10 @@ func genCase(t *rapid.T) Case {
 		ReaderFrom: rapid.Bool().Draw(t, "readerfrom"),
 		Stacked:    rapid.IntRange(0, 4).Draw(t, "stacked") == 0,
 		Strict:     rapid.IntRange(0, 2).Draw(t, "strict") == 0,
+		ViaFlame:   rapid.IntRange(0, 4).Draw(t, "viaflame") == 0,
+	}
+	if c.ViaFlame {
+		c.PriorHooks = rapid.IntRange(0, 2).Draw(t, "priorhooks")
 	}
 	n := rapid.IntRange(1, 14).Draw(t, "nops")
 	hook := 0
